@@ -163,6 +163,34 @@ def call(f, *a, **k):
         except Exception as e:
             return None, e
 
+def k_judge(chk, inp, op, impl, exc, out, kind, atol=None):
+    """one correspondence verdict: implementation result (or exception) vs the driver's answer line"""
+    if out.startswith('err ') or not out.startswith('ok'):
+        if out in ('err folding', 'err shape') and exc is not None:
+            chk.k_ok(op); return
+        if out == 'err empty_joint_set':
+            # theta is numpy.ma.masked: the real code returns masked or trips over `masked * model` (AttributeError);
+            # there is no entry to compare -- degenerate, outside the property's domain
+            chk.k_skipped += 1; chk.stat('k_skipped:empty_joint_set'); return
+        if out == 'err zero_model_sum':
+            # theta is inf/nan in floating point: nothing finite to compare
+            chk.k_skipped += 1; chk.stat('k_skipped:zero_model_sum'); return
+        chk.k_bad(op, inp, repr(exc) if exc is not None else 'returned', out, None); return
+    if exc is not None:
+        chk.k_bad(op, inp, repr(exc), out, None); return
+    body = out[3:] if len(out) > 3 else ''
+    if kind == 'cells':
+        ok, msg = cmp_cells(impl, parse_cells(body))
+    elif kind == 'scaled':
+        f, cells = body.split(' ', 1)
+        ok, msg = cmp_cells(impl, parse_cells(cells))
+        if ok and hasattr(impl, 'folded') and (f == '1') != bool(impl.folded):
+            ok, msg = False, 'folded flag impl %s model %s' % (impl.folded, f)
+    else:
+        ok, msg = cmp_scalar(impl, parse_cells(body)[0], atol)
+    if ok: chk.k_ok(op)
+    else: chk.k_bad(op, inp, common.jsonable(np.ma.filled(impl, np.nan) if isinstance(impl, np.ndarray) else impl), out[:400], msg)
+
 def k_case(chk, ctx, c, exps):
     dadi = ctx['dadi']; I = dadi.Inference; drv = ctx['driver']
     if drv is None or not drv.ok():
@@ -170,32 +198,7 @@ def k_case(chk, ctx, c, exps):
     M, D, mk = c['M'], c['D'], c.get('mk')
     mod = Model(drv, c)
     inp = small(c)
-    def judge(op, impl, exc, out, kind, atol=None):
-        if out.startswith('err ') or not out.startswith('ok'):
-            if out in ('err folding', 'err shape') and exc is not None:
-                chk.k_ok(op); return
-            if out == 'err empty_joint_set':
-                # theta is numpy.ma.masked: the real code returns masked or trips over `masked * model` (AttributeError);
-                # there is no entry to compare -- degenerate, outside the property's domain
-                chk.k_skipped += 1; chk.stat('k_skipped:empty_joint_set'); return
-            if out == 'err zero_model_sum':
-                # theta is inf/nan in floating point: nothing finite to compare
-                chk.k_skipped += 1; chk.stat('k_skipped:zero_model_sum'); return
-            chk.k_bad(op, inp, repr(exc) if exc is not None else 'returned', out, None); return
-        if exc is not None:
-            chk.k_bad(op, inp, repr(exc), out, None); return
-        body = out[3:] if len(out) > 3 else ''
-        if kind == 'cells':
-            ok, msg = cmp_cells(impl, parse_cells(body))
-        elif kind == 'scaled':
-            f, cells = body.split(' ', 1)
-            ok, msg = cmp_cells(impl, parse_cells(cells))
-            if ok and hasattr(impl, 'folded') and (f == '1') != bool(impl.folded):
-                ok, msg = False, 'folded flag impl %s model %s' % (impl.folded, f)
-        else:
-            ok, msg = cmp_scalar(impl, parse_cells(body)[0], atol)
-        if ok: chk.k_ok(op)
-        else: chk.k_bad(op, inp, common.jsonable(np.ma.filled(impl, np.nan) if isinstance(impl, np.ndarray) else impl), out[:400], msg)
+    judge = lambda *a, **k: k_judge(chk, inp, *a, **k)
     r, e = call(I.ll_per_bin, M, D)
     judge('ll_per_bin', r, e, mod.ll_op('lik_ll_per_bin'), 'cells')
     atol = 1e-9 * (float(np.ma.sum(np.ma.abs(r))) if (r is not None and np.ma.count(r)) else 1.0) + 1e-12
